@@ -205,6 +205,7 @@ impl ProvidedBufferRing {
       entry.set_bid(bid);
     }
     self.slots.borrow_mut()[bid as usize] = Some(buf);
+    crate::verif_event!("ring.provide", "\"bgid\":{},\"bid\":{}", self.bgid, bid);
     let new_tail = tail.wrapping_add(1);
     self.local_tail.set(new_tail);
     // SAFETY: ring_ptr is the valid first entry of the registered ring; the tail field
@@ -236,6 +237,7 @@ impl ProvidedBufferRing {
           bid
         ))
       })?;
+    crate::verif_event!("ring.take", "\"bgid\":{},\"bid\":{},\"filled\":{}", self.bgid, bid, filled);
     self.provide(bid, self.pool.acquire());
     let chunk = PooledChunk {
       buf,
